@@ -547,6 +547,21 @@ impl<'s, 'a> Gen<'s, 'a> {
         } else {
             None
         };
+        // mixed numbering (some items numbered, some not; X.680 20.3 - 20.6), made valid with
+        // C14's model of the numbering rules: small numbers, so that explicit ones sit where the
+        // counter of the unnumbered ones passes
+        if self.cfg.enum_numbers && !numbered && self.src.chance(30) {
+            let pick = |g: &mut Gen| if g.src.chance(50) { Some(g.src.range(-1, 5)) } else { None };
+            let pat = crate::props::c14::Pat {
+                root: (0..root.len()).map(|_| pick(self)).collect(),
+                ext: ext.as_ref().map(|e| (0..e.len()).map(|_| pick(self)).collect()),
+            };
+            if let Some(p) = crate::props::c14::repair(pat) {
+                let root2: Vec<(String, Option<i128>)> = root.iter().zip(p.root.iter()).map(|((n, _), v)| (n.clone(), *v)).collect();
+                let ext2 = ext.as_ref().map(|e| e.iter().zip(p.ext.clone().unwrap_or_default().iter()).map(|((n, _), v)| (n.clone(), *v)).collect());
+                return EnumDef { root: root2, ext: ext2 };
+            }
+        }
         EnumDef { root, ext }
     }
 
